@@ -228,3 +228,24 @@ package graph
 //@ func joinLabels nosafety
 //@   mustcall Strings sorted: true when len(s.Label) != 0
 //@   callsite Join after_sort: aftercall("Strings", true) && same_elems($arg0, labels)
+
+// ---- C05: RemoveRedundantEdges — an edge is removed only if it is residual, and always from both sides at once (the
+// out-map of its source and the in-map of its destination) ----
+//@ func Graph.RemoveRedundantEdges nosafety
+//@   loop 2
+//@     step only_residual: atiter(2, has(e.Dest.In, e.Src)) && !has(e.Dest.In, e.Src) ==> e.Residual
+//@     step both_sides: atiter(2, has(e.Src.Out, e.Dest)) && atiter(2, has(e.Dest.In, e.Src)) ==> (has(e.Src.Out, e.Dest) <==> has(e.Dest.In, e.Src))
+
+// ---- C05: TrimTree — per node: a kept node is appended to the new node list and nothing else happens to it; for a removed
+// root every out-edge visited loses its entry in the child's in-map; for a removed inner node every out-edge visited is
+// handed to the parent: it starts at the parent, is marked residual, is inline only if both hops were, and the child no
+// longer has an in-entry for the removed node (that it is filed in both maps under the new ends did not discharge) ----
+//@ func Graph.TrimTree nosafety
+//@   loop 1
+//@     step kept_appended: atiter(1, has(kept, cur)) ==> len(g.Nodes) == atiter(1, len(g.Nodes)) + 1 && g.Nodes[len(g.Nodes) - 1] == cur
+//@     step removed_not_listed: !atiter(1, has(kept, cur)) ==> len(g.Nodes) == atiter(1, len(g.Nodes))
+//@   loop 2
+//@     step detached: !has(outEdge.Dest.In, cur)
+//@   loop 4
+//@     step rewired_edge: outEdge.Src == parent && outEdge.Residual && (outEdge.Inline <==> parentEdgeInline && atiter(4, outEdge.Inline))
+//@     step old_entry_gone: cur != parent && child.In != parent.Out ==> !has(child.In, cur)
